@@ -1,0 +1,5 @@
+//go:build !verif
+
+package nclient4
+
+func vhook(ev string, args ...interface{}) {}
